@@ -60,6 +60,9 @@ PROP = {'rule': 'rapid state machine over GroupQuotaManager (unit core: the plug
                  '(each takes the manager\'s lock): snapshot, optional event, per-pod migrate step',
                  'multi-tree unit: tree ids are fixed per quota, the root quota of a tree is neither re-parented nor turned into a leaf; '
                  'the abstract root groups of the trees are not asserted',
+                 'parked-reserve units only: Reserve is also issued for a pod that is already bound and assigned (a late scheduling attempt '
+                 'whose cycle started before the informer delivered the bound pod - e.g. an earlier bind that looked failed to the scheduler '
+                 'but went through); it must leave the pod counted exactly once. Unreserve is still never issued for a bound pod',
                  'for a pod reserved while it is parked in the default quota although its own quota already exists, either quota is accepted '
                  'as the place where the reservation is charged (the statement does not fix it); it must be charged exactly once'],
  'units': [{'name': 'core',
